@@ -102,6 +102,8 @@ def main():
         r["violations"] = len(viol)
         r["keys"] = keys[:5]
         r["status"] = "caught" if rc == 1 and viol else ("harness-error" if rc == 2 else "MISSED")
+        if r["status"] == "MISSED" and demo and r.get("demo_patched_rc") == 0:
+          r["status"] = "not-a-break-on-this-head (demo passes with the patch)"
         if rc == 2:
           r["detail"] = out[-600:]
       finally:
@@ -120,7 +122,15 @@ def main():
                           "demo_patched_rc": r.get("demo_patched_rc"), "check_status": r.get("status"), "check_keys": r.get("keys")}
         json.dump(m, open(meta, "w"), indent=1, sort_keys=True)
       print("%-40s %s %s" % (key, r.get("status"), r.get("keys", [""])[:1]))
-      json.dump(results, open(resfile, "w"), indent=1, sort_keys=True)
+      try:
+        cur = json.load(open(resfile))       # other runs may have written meanwhile: merge, do not clobber
+      except Exception:
+        cur = {}
+      cur[key] = r
+      results = cur
+      tmpf = resfile + ".%d.tmp" % os.getpid()
+      json.dump(cur, open(tmpf, "w"), indent=1, sort_keys=True)
+      os.replace(tmpf, resfile)
   finally:
     sh("git -C /repo worktree prune")
     shutil.rmtree(tmp, ignore_errors=True)
